@@ -118,7 +118,11 @@ func zeroMsg(url string) sdk.Msg {
 func bodyOfStaking(m sdk.Msg, valID func(string) string) string {
 	switch v := m.(type) {
 	case *stakingtypes.MsgCreateValidator:
-		return "cv " + v.Commission.Rate.BigInt().String()
+		value := "0"
+		if !v.Value.Amount.IsNil() {
+			value = v.Value.Amount.BigInt().String()
+		}
+		return "cv " + v.Commission.Rate.BigInt().String() + " " + valID(v.ValidatorAddress) + " " + value
 	case *stakingtypes.MsgEditValidator:
 		if v.CommissionRate == nil {
 			return "ev -"
